@@ -28,6 +28,13 @@ Granularity.  The event loop's ready queue is explicit (`queue`, FIFO — asynci
 event is followed by a drain (`drained`); the theorems that hold for arbitrary placement
 of drains are proved for arbitrary placement.
 
+A user listener that raises: the call was made (it is an output of the model), the
+exception leaves the call_soon callback into the loop's exception handler, and — because
+the pinned code stores `_volume` / `_output_devices` / `_focus_state` and `_previous_state`
+*before* calling the listener — no model state depends on it.  So a raising listener is
+not an event of the model; the harness scripts listeners that raise on their k-th call and
+requires model and code to keep agreeing.
+
 Protocols are indices into `DEFAULT_PRIORITIES` (0 = highest priority); values (`Val`)
 are indices into a value domain (Playing objects / volume levels / output-device lists /
 focus states), 0 being the facade's initial volume / device list / focus state.
